@@ -16,6 +16,7 @@ package registry
 
 import (
 	"fmt"
+	"strings"
 	"sync"
 
 	"github.com/cockroachdb/errors"
@@ -69,7 +70,11 @@ func (n *Registry) Add(shardID uint64, replicaID uint64, target string) {
 	key := raftio.GetNodeInfo(shardID, replicaID)
 	v, ok := n.addr.LoadOrStore(key, target)
 	if ok {
-		if v.(string) != target {
+		// the membership rules (rsm.addressEqual) accept the promotion of a
+		// non-voting replica under another spelling of its address (letter case,
+		// surrounding white space), such a committed change must not panic here
+		if !strings.EqualFold(strings.TrimSpace(v.(string)),
+			strings.TrimSpace(target)) {
 			plog.Panicf("inconsistent target for %s, %s:%s",
 				logutil.DescribeNode(shardID, replicaID), v, target)
 		}
